@@ -111,6 +111,8 @@ type vGProc struct {
 	C       *vGC `wire:""`
 	inited  bool
 	cAtInit bool
+	// answers nil (no substitute) from the before-initialization callback of one component
+	nilBefore bool
 }
 
 func (p *vGProc) Naming() string { return "gProc" }
@@ -119,8 +121,14 @@ func (p *vGProc) Init() error {
 	p.cAtInit = p.C != nil
 	return nil
 }
-func (p *vGProc) PostProcessBeforeInitialization(c any, n string) (any, error) { return c, nil }
-func (p *vGProc) PostProcessAfterInitialization(c any, n string) (any, error)  { return c, nil }
+func (p *vGProc) PostProcessBeforeInitialization(c any, n string) (any, error) {
+	if p.nilBefore && n == "gA" {
+		// "nothing to substitute": the component as it is goes on through its lifecycle
+		return nil, nil
+	}
+	return c, nil
+}
+func (p *vGProc) PostProcessAfterInitialization(c any, n string) (any, error) { return c, nil }
 
 // a cycle made up of lazy components only, reached from an eager one
 type vGL1 struct {
@@ -222,6 +230,10 @@ func VerifAppGraph() {
 	}
 	withOpt := flag(true)
 	proc := &vGProc{g: g}
+	if flag(false) {
+		proc.nilBefore = true
+		nd.Cover("a processor answers nil before initialization")
+	}
 	win, lose := &vGWinner{g: g}, &vGLoser{g: g}
 	vGZInits = [2]int{}
 	l1, l2 := &vGL1{g: g}, &vGL2{g: g}
